@@ -12,7 +12,7 @@ import json
 import re
 
 from simkit import base, driver, world
-from simkit.canon import sort_result, is_exc
+from simkit.canon import sort_result, is_exc, builtin_representative_differs
 
 T0 = 1_500_000_000 * 10**9          # simulated now at subject start (seams.EPOCH_NS)
 MS = 10**6
@@ -618,6 +618,9 @@ def judge(case):
                 if mutated_since_query:
                     stats['compared_after_mutation'] += 1
                 if sort_result(a) != sort_result(b):
+                    if builtin_representative_differs(p, sort_result(a), sort_result(b)):
+                        stats['c16_representative_excluded'] += 1      # listed C16 finding, not staleness
+                        continue
                     ta, tb = set(TAG.findall(json.dumps(a))), set(TAG.findall(json.dumps(b)))
                     problems.append(('stale:%s' % p['m'], {
                         'op': i, 'probe': p, 'stale_names': sorted(ta - tb)[:6], 'missed_names': sorted(tb - ta)[:6],
